@@ -171,7 +171,8 @@ def r_pushstorage(F, R, cat=None):
         n += 1
         R.saw(b)
         ctx, effs = cat.effects(b)
-        on_self = [e for e in effs if self_field_targets(e, ctx) and e.cls not in ("access", "read", "measure", "adaptor")]
+        on_self = [e for e in effs if self_field_targets(e, ctx) and e.cls not in ("access", "read", "measure", "adaptor",
+                                                                             "reserve")]  # capacity only
         ok = len(on_self) == 1 and on_self[0].cls == "append"
         src_ok = False
         if ok:
